@@ -313,7 +313,7 @@ def task_minutes(ctx, scale_name, small, big_bits):
   conf['cast'] = cap.conversion
   # bit-precise, both signs, |m| <= small
   cast = z3.fpToSBV(z3.RTZ(), val.fp, z3.BitVecSort(64))
-  verdict, wit = fp_decide(ctx, 'minutes.fp', conf, [bv >= -small, bv <= small, cast != z3.SignExt(32, bv)], bv, timeout_s=300)
+  verdict, wit = fp_decide(ctx, 'minutes.fp', conf, [bv >= -small, bv <= small, cast != z3.SignExt(32, bv)], bv, timeout_s=(300 if small <= 1024 else 2400))
   cname = 'minutes.datetime_round_trip_exact'
   if verdict == 'unsat':
     ctx.clause(cname, 'discharged', config=dict(conf, range=[-small, small], logic='QF_BVFP'), queries=1)
@@ -382,7 +382,7 @@ def make_tasks(tier, seed):
            dict(name='scale-laws-symbolic', fn='task_scale_laws', kw=dict(symbolic_scale=True)),
            dict(name='seconds-default', fn='task_seconds', kw=dict(scale_name='default', nmax=4096 if tier == 'quick' else 100000)),
            dict(name='seconds-si', fn='task_seconds', kw=dict(scale_name='si', nmax=4096)),
-           dict(name='minutes-default', fn='task_minutes', kw=dict(scale_name='default', small=1024 if tier == 'quick' else 65536, big_bits=26)),
+           dict(name='minutes-default', fn='task_minutes', kw=dict(scale_name='default', small=1024 if tier == 'quick' else 16384, big_bits=26)),
            dict(name='minutes-odd', fn='task_minutes', kw=dict(scale_name='odd', small=512 if tier == 'quick' else 8192, big_bits=26)),
            dict(name='datetime-orbital', fn='task_datetime_orbital', kw={})]
   return tasks
